@@ -380,6 +380,7 @@ func main() {
 	r.Assume("rule checker: the rule an added peer is meant for is the rule of the peer the operator removes, else any rule with fewer peers than its count; the add is accepted if the target satisfies the label constraints and isolation level of one of them. Busy / snapshot / pending-peer / store-limit load of a target is counted, not judged (not in the statement)")
 	r.Assume("histories: regions have unique ids, are put into the cluster, are revisited in later rounds as they are then (half of the proposed operators are executed on the simulator: new epoch), the checker's waiting list is drained like the patrol loop does (ids looked up again in the cluster); ~6% of the calls run with the id allocator failing (a nil result of such a call is not judged, later calls are), 2% of the regions have no leader; 1% of the worlds are large (30..258 stores, up to 16 zones / 120 hosts with prefix-related names, 20..1100 extra rules on key ranges around the checked regions, 100+ regions)")
 	r.Assume("concurrent family: one goroutine makes the checker calls (pd has one patrol goroutine; checker calls are never overlapped with each other), another applies and reverts ONE update (rule rewritten under the same id incl. get-edit-set, store labels/state/heartbeat/space through get-clone-put, replication settings) until the calls are done; a call is judged in the view before, after, or - when it overlaps (lib/hist logical clock) - in both, and only findings present in both views are reported (keys :during-<class>-update); data races are attributed by the driver (check.json mechanism)")
+	r.Assume("one-field family: 160 (500) worlds in which every field of a served rule (count, role, constraint key / op / values / one more / one less, location labels, isolation level), of the settings (max-replicas, location labels, isolation level, each of the five switches) and of a store as of its previous heartbeat (state, a label value, a label more / less, available, capacity, busy, heartbeat time, sending / receiving snapshots, region count) is changed alone, one per round in random order, under one long-lived checker; constraint values also contain separators, empty strings, duplicates and case variants. Further inputs: a store with id 2^64-1, regions with two peers on one store or a peer on an unknown store (only 'no panic' is judged), checker / controller restart (context cancelled, rebuilt on the same cluster) as an update kind, three-party trials (patrol, rule or settings update, store update) judged in all four views. Operators are read structurally (step types and their store / peer id fields); Operator.String() only appears in witnesses")
 	r.Assume("positive clause judged only when the make-up switch is on (replica checker), replica-schedule-limit > 0 (CheckRegion), and a store exists that is up, connected, completely empty, unloaded, labelled with exactly zone/rack/host whose values all differ from those of every store of the region (which all carry the three labels), matching the deficient rule's constraints")
 
 	if err := selfTest(); err != nil {
